@@ -19,8 +19,8 @@ Definition ELEM_NAMES : list str := map bs ["span"; "em"; "section"; "li"; "P"; 
 Definition VOID_NAMES : list str := map bs ["br"; "img"; "meta"; "hr"]%string.
 Definition SELF_NAMES : list str := map bs ["x-a"; "use"; "html"; "body"; "main"; "article"]%string.
 Definition COMMENTS : list str := map bs [" c "; "</body>"; "<p>"; " a -- b "; ""]%string.
-Definition SCRIPTS : list str := map bs ["var a = 1;"; "if (a < b) { x(); }"; "document.write('</p><body>');"; "<!-- x -->"; "a<b"]%string.
-Definition RAWTEXTS : list str := map bs ["a </head> b"; "x </body> y <p>"; "</main></article>"; "<b>bold</b> &amp; </html>"; "plain"]%string.
+Definition SCRIPTS : list str := map bs ["var a = 1;"; "if (a < b) { x(); }"; "document.write('</p><body>');"; "<!-- x -->"; "a<b"; ""]%string.
+Definition RAWTEXTS : list str := map bs ["a </head> b"; "x </body> y <p>"; "</main></article>"; "<b>bold</b> &amp; </html>"; "plain"; ""]%string.
 Definition SCRIPT_NAMES : list str := map bs ["script"; "style"]%string.
 Definition RAW_NAMES : list str := map bs ["title"; "textarea"; "noscript"; "xmp"; "iframe"]%string.
 Definition DOCTYPE : str := bs "<!DOCTYPE html>".
@@ -40,8 +40,9 @@ Definition open_ok (t a : str) : bool := iso_ok lw (open_tag t a) [DStart (lw t)
 Definition close_ok (t : str) : bool := iso_ok lw (close_tag t) [DEnd (lw t) (close_tag t)].
 Definition self_ok (t a : str) : bool := iso_ok lw (self_tag t a) [DSelf (lw t) (self_tag t a)].
 Definition comment_ok (s : str) : bool := iso_ok lw (comment_open ++ s ++ comment_close) [DOther (comment_open ++ s ++ comment_close)].
-Definition raw_ok (t s : str) : bool :=
-  iso_ok lw (open_tag t [] ++ s ++ close_tag t) [DStart (lw t) (open_tag t []); DOther s; DEnd (lw t) (close_tag t)].
+(* [raw_toks]: start tag, text, end tag; for the EMPTY content ("" is in SCRIPTS and RAWTEXTS) start tag, end tag only,
+   which is what the tokenizer gives on <script></script>, <title></title>, ... *)
+Definition raw_ok (t s : str) : bool := iso_ok lw (open_tag t [] ++ s ++ close_tag t) (raw_toks lw t s).
 
 (* the vocabulary, token by token (kernel evaluation) *)
 Lemma vocab_open : forallb (fun t => forallb (open_ok t) ATTRS) ELEM_NAMES = true.
@@ -125,6 +126,12 @@ Proof.
   change (flat_map (node_items lw) (n :: doc)) with (node_items lw n ++ flat_map (node_items lw) doc).
   apply andb_prop in H. destruct H as [Hn Hd]. rewrite forallb_app, (gen_node_items n Hn), (IH Hd). reflexivity.
 Qed.
+
+(* TEST: the empty raw-text elements are in the vocabulary, and a document made of them is read as its token stream *)
+Example gen_empty_raw : forallb gen_node [Raw (bs "script") []; Raw (bs "title") []; Raw (bs "textarea") []] = true.
+Proof. vm_compute. reflexivity. Qed.
+Example gen_empty_raw_tokenizes : tokenizes_as lw [Raw (bs "script") []; Raw (bs "style") []; Raw (bs "title") []; Raw (bs "textarea") []].
+Proof. apply tokenizes_as_units, gen_doc_ok. vm_compute. reflexivity. Qed.
 
 Lemma vocab_elem_not_void : forallb (fun t => negb (is_void (lw t))) (ELEM_NAMES ++ SCRIPT_NAMES ++ RAW_NAMES) = true.
 Proof. vm_compute. reflexivity. Qed.
